@@ -390,6 +390,9 @@ def run(chk, repo):
     chk.clauses.append('C05.j (shared R-THREAD) an option value bound to a name that is itself a CLI option carries that very option')
     optname(chk, repo, 'C05.j', ['cli.call_variant_peptide'], floor=0)
     from rules.shared import copy_own_containers
+    from rules.shared import w2f_tail_guard
+    chk.clauses.append('C05.n (R-AFFINE) a W>F reassigned peptide keeps every residue behind the reassigned W (tail appended iff end < len(seq)): peptides added by the option are W>F forms of peptides of the run without it')
+    w2f_tail_guard(chk, repo, 'C05.n')
     from rules.shared import lazy_cache_starts_empty
     chk.clauses.append('C05.m (R-FRESH) the cached length of a miscleaved node series is computed from its own nodes (cache starts empty): the min / max length limits act on the real length')
     lazy_cache_starts_empty(chk, repo, 'C05.m', ['svgraph.VariantPeptideDict'], floor=1)
